@@ -420,6 +420,28 @@ theorem newPlan_spec (kc : Consts) (files : List IndexFile) :
     obtain ⟨p, hp, ei, eid, em, _⟩ := hfrom p' hmem (by simp [g, hm])
     exact ⟨p, hp, by rw [ei, hidx]; omega, by rw [em, hm], by rw [eid, e]⟩
 
+/-- The second pass of `PrunePlan::new` ("filter out normally indexed packs from packs_to_delete"): a pack that SOME index
+file lists normally is a plan pack of the unmarked section — whatever marked entries for it exist in this or other index
+files (e.g. written by a prune that saw the pack before its index file existed). -/
+theorem newPlan_normal_entry_unmarked (kc : Consts) (files : List IndexFile) :
+    ∀ f ∈ files, ∀ q ∈ f.packs, ∃ p ∈ (newPlan kc files).packs, p.id = q.id ∧ p.mark = false := by
+  obtain ⟨_, _, _, _, s5, s6⟩ := newPass1_spec kc files 0 [] []
+  generalize hR : newPass1 kc 0 [] [] files = R at s5 s6
+  let g : PPack → Bool := fun p => !p.mark || !R.2.contains p.id
+  have hflat : (R.1.map (newPass2 R.2)).flatMap (·.2) = (pairPacks R.1).filter g := by
+    rw [pairPacks, List.filter_flatMap, List.flatMap_map]
+    rfl
+  have hpacks : (newPlan kc files).packs.map PPack.core2 = ((pairPacks R.1).filter g).map PPack.core2 := by
+    unfold newPlan
+    simp only [hR]
+    rw [renumber_core2, hflat]
+  intro f hf q hq
+  rcases (s5 _).mp (s6 f hf q hq) with h | ⟨p', hp', hm, e⟩
+  · simp at h
+  · obtain ⟨p, hp, _, eid, em, _⟩ :=
+      mem_of_core2_eq hpacks.symm (List.mem_filter.mpr ⟨hp', by simp [g, hm]⟩)
+    exact ⟨p, hp, by rw [eid, e], by rw [em, hm]⟩
+
 /-- position `p.index` of a plan pack is a valid position of the plan's index-file list. -/
 theorem plan_index_valid {typed : Bool} {kc : Consts} {o : Opts} {files : List IndexFile} {used : List Key}
     {existing : List (Nat × Nat)} {d : Decided} (h : plan typed kc o files used existing = some d)
